@@ -3,7 +3,7 @@
 From Coq Require Import List ZArith NArith Bool Lia.
 From Coq.Strings Require Import Byte.
 From RimeV Require Import Base.Bytes Eng.Keys Eng.Cand Eng.Segm Eng.Ctx Eng.Engine Eng.Procs Eng.Api Eng.Oracle
-     Eng.Trans Eng.Spec Eng.WfView Eng.Utf8Proofs Eng.WfProofs Eng.InvProofs Eng.PunctProofs Gen.Keymaps Gen.EngFacts.
+     Eng.Trans Eng.Spec Eng.WfView Eng.Utf8Proofs Eng.WfProofs Eng.InvProofs Eng.PunctProofs Eng.KbProofs Gen.Keymaps Gen.EngFacts.
 Import ListNotations.
 
 (** Source fact (gen/eng_facts.py, re-read from src/rime/context.cc on every
@@ -144,3 +144,21 @@ Theorem C02_punct_example :
   existsb (fun o => match o with Obs (RCommit (Some _)) _ => true | _ => false end) obs = true.
 Proof. cbv zeta. split; [|split]; vm_compute; reflexivity. Qed.
 Print Assumptions C02_punct_example.
+
+(** ---- round 3, stage 3: the key binder ---- [C02_wf_reported] covers chains with the key binder and
+    any binding table (the replayed keys re-enter ProcessKey: [process_key_n_inv] by induction on the
+    nesting depth).  Non-vacuity: the key-binder schemas of the correspondence and a run through
+    paging bindings, ReinterpretPagingKey, option actions, the self-sending and the cyclic bindings. *)
+Theorem C02_wf_reported_synth_kb :
+  forall fluid dlog ops,
+    forallb wf_obsb (snd (run (synth_kb_cfg fluid dlog) (synth_translate (synth_kb_cfg fluid dlog)) ops)) = true.
+Proof. exact wf_reported_synth_kb. Qed.
+Print Assumptions C02_wf_reported_synth_kb.
+
+Theorem C02_key_binder_example :
+  let cfg := synth_kb_cfg_gen true true true true true in
+  forallb CommitProofs.not_crash (snd (run cfg (synth_translate cfg) kb_example_ops)) = true /\
+  existsb (fun o => match o with Obs (RBool true) v => match v_input v with [] => false | _ => true end | _ => false end)
+          (snd (run cfg (synth_translate cfg) kb_example_ops)) = true.
+Proof. exact kb_guarded_ok. Qed.
+Print Assumptions C02_key_binder_example.
